@@ -249,9 +249,62 @@ def run_undef(c):
                             viol.append({
                                 "key": "undef:module-name-rebound",
                                 "msg": s.name})
+    private_name_probe(c, viol, ctr)
     sig = f"undef:{c['isa']}-{c['fmt']}:{int(c['allow_undef'])}:" \
           f"{len(unknown)}"
     return {"sig": sig, "violations": viol, "counters": ctr}
+
+
+def private_name_probe(c, viol, ctr):
+    """
+    A module may own symbols with assembler-private names (the temporary
+    labels an earlier rewrite left behind, '.L_<addr>' names of a
+    disassembler): text that refers to one without defining it binds to the
+    module's symbol like any other name, with and without a suffix for
+    temporary labels in effect, whether or not undefined names are allowed.
+    """
+    from gtirb_rewriting.assembler import Assembler, UndefSymbolError
+    from gtirb_rewriting.assembly import X86Syntax
+    isa, fmt = c["isa"], c["fmt"]
+    v = vocab.VOCAB[isa]
+    k = next((k for k in ("call", "jmp", "lea_sym") if k in v), None)
+    if k is None:
+        return
+    name = ("L" if (isa, fmt) == ("ia32", "pe") else ".L") + "mpriv_7"
+    for allow in (False, True):
+        for suffix in (None, "_3"):
+            m, msyms = c12.target_module(c)
+            sym = gtirb.Symbol(name, payload=msyms["msym_code"].referent)
+            m.symbols.add(sym)
+            kw = {"temp_symbol_suffix": suffix} if suffix else {}
+            asm = Assembler(m, allow_undef_symbols=allow, **kw)
+            tag = f"{'allowed' if allow else 'strict'}:" \
+                  f"{'suffix' if suffix else 'plain'}"
+            try:
+                asm.assemble(vocab.asm_text(isa, k, name, None) + "\n",
+                             X86Syntax.ATT)
+                res = asm.finalize()
+            except UndefSymbolError as e:
+                viol.append({"key": "undef:module-private-name-not-found",
+                             "msg": f"{tag}: {e}"})
+                continue
+            except Exception as e:  # noqa
+                viol.append({
+                    "key": "undef:module-private-name-raises:"
+                           + type(e).__name__, "msg": f"{tag}: {e!r}"[:300]})
+                continue
+            ctr["private_name_probes"] = ctr.get(
+                "private_name_probes", 0) + 1
+            used = [s_ for sect in res.sections.values()
+                    for e in sect.symbolic_expressions.values()
+                    for s_ in e.symbols]
+            if not used or any(s_ is not sym for s_ in used):
+                viol.append({"key": "undef:module-private-name-rebound",
+                             "msg": f"{tag}: {[s_.name for s_ in used]}"})
+            if any(s_.name.startswith(name) for s_ in res.symbols):
+                viol.append({
+                    "key": "undef:module-private-name-duplicated",
+                    "msg": f"{tag}: {[s_.name for s_ in res.symbols]}"})
 
 
 def second_reference(c, text, unknown):
